@@ -22,7 +22,14 @@ func generate(family string, seed uint64, tier string, index int) *Spec {
 	case "membership":
 		sp = genMembership(r, index)
 	case "crashpoints":
-		sp = genCrashpoints(r, index)
+		// scenario and crash point are independent dimensions: the same scenario is repeated with
+		// every crash point n (thorough: all n = 1..crashN; quick: every 4th n per scenario)
+		stride := 4
+		if tier == "thorough" {
+			stride = 1
+		}
+		per := crashN / stride
+		sp = genCrashpoints(newRng(seed, fmt.Sprintf("crashpoints/scen/%d", index/per)), index, stride)
 	case "lost":
 		sp = genLost(r, index)
 	case "maintenance":
